@@ -86,7 +86,15 @@ def resStep (st : ContState) (t : Tokens) (impl : Option String) : ContState × 
     let o := slotGet st.res (tokNat t 3)
     let r' := rs.r.mergeFailed Gen.Limits.FailedEventsAttemptsLimit o.r
     let merged := o.r.failed + 1 ≤ Gen.Limits.FailedEventsAttemptsLimit
-    finish st s { rs with r := r', offered := if merged then rs.offered ++ o.r.evs.toList else rs.offered }
+    let (st', out) := finish st s { rs with r := r', offered := if merged then rs.offered ++ o.r.evs.toList else rs.offered }
+    -- the attempt counter after a hand-back is the handed-back payload's count plus one (not a running total)
+    let extra := match impl with
+      | some line =>
+        let f := ((kvGet (tokenize line) "failed").bind String.toNat?).getD 0
+        if merged && f != o.r.failed + 1 then
+          [s!"C02 reservoir: after the hand-back of a payload that had failed {o.r.failed} time(s) the attempt counter is {f}, not {o.r.failed + 1}"] else []
+      | none => []
+    (st', { out with specFails := out.specFails ++ extra })
   | "split" =>
     let rs := slotGet st.res s
     let (r1, r2) := rs.r.split
